@@ -210,9 +210,11 @@ func (d *DNSFilter) handleBlockedServicesUpdate(w http.ResponseWriter, r *http.R
 		defer d.confMu.Unlock()
 
 		d.conf.BlockedServices = bsvc
-	}()
 
-	log.Debug("updated blocked services schedule: %d", len(bsvc.IDs))
+		// Log under the lock, since the list can be modified by the handlers
+		// once it's stored.
+		log.Debug("updated blocked services schedule: %d", len(bsvc.IDs))
+	}()
 
 	d.conf.ConfigModified()
 }
